@@ -1,5 +1,5 @@
 //! C04 — parsing untrusted bytes never panics, aborts or hangs.
-//! Every case runs in the isolated worker (memory limit, per-case timeout, 8 MiB stack); the
+//! Every case runs in the isolated worker (memory limit, per-case timeout, 2 MiB stack = the default of a spawned Rust thread); the
 //! outcome class must be ok / err. `load` outcomes are also compared with the Lean model.
 use crate::codec::*;
 use crate::ctx::Ctx;
